@@ -67,6 +67,7 @@ func scanPrelude(pre string) (heapFns map[string]bool, fnSort map[string]Sort) {
 	for _, m := range reFnDecl2.FindAllStringSubmatch(pre, -1) {
 		fnSort[m[1]] = toSort(m[3])
 	}
+	fnSort["sortPerm"] = SPerm
 	return
 }
 
